@@ -840,6 +840,27 @@ private:"""),
          old="            if (ss.size() > history)", new="            if (2U * ss.size() > history)"),
     dict(property="C01", name="lbfgs-trims-only-s", rule="R-C01-6", file="src/solver/lbfgs.cpp",
          old="                ss.pop_front();\n                ys.pop_front();", new="                ss.pop_front();"),
+    dict(property="C06", name="sclass-error-compares-argmax-of-target", rule="R-C06-7", file="include/nano/loss/error.h", tu="src/loss.cpp",
+         old="            return static_cast<scalar_t>(is_pos_target(target(idx)) ? 0 : 1);",
+         new="            tensor_size_t ilabel = -1;\n            target.array().maxCoeff(&ilabel);\n            return static_cast<scalar_t>(ilabel == idx ? 0 : 1);"),
+    dict(property="C06", name="mclass-error-counts-agreements", rule="R-C06-7", file="include/nano/loss/error.h", tu="src/loss.cpp",
+         old="        return static_cast<scalar_t>((edges < epsilon).count());\n    }\n};\n\n///\n/// \\brief error measure for single-class", new="        return static_cast<scalar_t>((edges > epsilon).count());\n    }\n};\n\n///\n/// \\brief error measure for single-class"),
+    dict(property="C06", name="sclass-error-uses-min-output", rule="R-C06-7", file="include/nano/loss/error.h", tu="src/loss.cpp",
+         old="            output.array().maxCoeff(&idx);", new="            output.array().minCoeff(&idx);"),
+    dict(property="C11", name="gboost-final-stats-over-all-samples", rule="R-C11-7", file="src/gboost/model.cpp",
+         old="        fit_result.store(::selected(values, samples));", new="        fit_result.store(std::move(values));"),
+    dict(property="C11", name="gboost-fold-stats-swapped", rule="R-C11-7", file="src/gboost/model.cpp",
+         old="""    return std::make_tuple(std::move(result), selected(optimum.values(), train_samples),
+                           selected(optimum.values(), valid_samples));""",
+         new="""    return std::make_tuple(std::move(result), selected(optimum.values(), valid_samples),
+                           selected(optimum.values(), train_samples));"""),
+    dict(property="C11", name="linear-validation-stats-on-training-samples", rule="R-C11-7", file="src/linear.cpp",
+         old="auto vd_values = ::nano::linear::evaluate(dataset, valid_samples, loss, result.m_weights, result.m_bias, batch);",
+         new="auto vd_values = ::nano::linear::evaluate(dataset, train_samples, loss, result.m_weights, result.m_bias, batch);"),
+    dict(property="C11", name="selected-gathers-errors-twice", rule="R-C11-7", file="src/gboost/model.cpp",
+         old="    values.tensor(1).indexed(samples, selected.tensor(1));", new="    values.tensor(0).indexed(samples, selected.tensor(1));"),
+    dict(property="C13", name="store-validation-errors-from-loss-row", rule="R-C13-8", file="src/machine/result.cpp",
+         old="    store_stats(valid_errors_losses.tensor(0), m_values.tensor(trial, fold, 1, 0));", new="    store_stats(valid_errors_losses.tensor(1), m_values.tensor(trial, fold, 1, 0));"),
     # ---- C10
     dict(property="C10", name="accumulator-r1-sign", rule="R-C10-1", file="include/nano/wlearner/accumulator.h", tu="src/wlearner/accumulator.cpp",
          old="        r1(bin) -= vgrad;", new="        r1(bin) += vgrad;"),
@@ -1277,4 +1298,6 @@ BENIGN = [
             const auto sigma = 2.0 * tau / (1.0 + alpha);
             xv.noalias() = xv - tau * (Hm * gv) / std::sqrt(gHg);
             Hm.noalias() = delta * (Hm - sigma * (Hm * gv * gv.transpose() * Hm) / gHg);"""),
+    dict(property="C11", name="gboost-final-stats-named-selection", file="src/gboost/model.cpp",
+         old="        fit_result.store(::selected(values, samples));", new="        auto fitted_values = ::selected(values, samples);\n        fit_result.store(std::move(fitted_values));"),
 ]
